@@ -33,6 +33,8 @@ def family(rp):
     f.add("None-into-class?", cls + "def x: A? := None", "accept")
     f.add("class-into-class?", cls + "def x: A? := A()", "accept")
     f.add("None-as-arg", "def f(a: Int) -> Int => a\nf(None)", "reject")
+    f.add("None-as-nullable-arg", "def f(a: Int?) -> Int => 5\nf(None)", "accept")
+    f.add("value-as-nullable-arg", "def f(a: Int?) -> Int => 5\nf(3)", "accept")
     f.add("None-returned", "def f() -> Int => None", "reject")
     f.add("None-returned-nullable", "def f() -> Int? => None", "accept")
     f.add("nullable-operand", "def y: Int? := 5\ny + 1", "reject")
